@@ -187,6 +187,8 @@ var nondetPrefixes = []string{"crypto/rand.", "math/rand.", "math/rand/v2.", "ti
 func ruleC12(w *World) {
 	w.floor("C12.R6", 6)
 	w.ruleKeyImmutability("C12.R6")
+	w.floor("C12.R7", 3)
+	w.rulePubKeyCacheProvenance("C12.R7")
 	w.floor("C12.R1", 4)
 	w.floor("C12.R2", 3)
 	w.floor("C12.R3", 2)
@@ -484,66 +486,7 @@ func ruleC13(w *World) {
 		okk := len(cs) == 1 && render(cs[0].Common().Args[1]) == P(fn, 1) && strings.Contains(render(cs[0].Common().Args[0]), "\"KMAC\"")
 		w.check(okk, "C13.R2", fnKey(fn)+"/cshake-params", fn.Pos(), "cSHAKE128(N=\"KMAC\", S=customizer)", "cSHAKE is not instantiated with N=\"KMAC\" and the caller's customizer")
 	}
-	// R2: ordering in the KMAC methods
-	var kmacT *types.Named
-	for _, t := range w.implementors(hashPath, "Hasher", hashPath) {
-		for _, f := range structFields(t) {
-			if f.Name() == "initBlock" {
-				kmacT = t
-			}
-		}
-	}
-	if kmacT == nil {
-		w.undecided("C13.R2", "anchor:kmac", token.NoPos, "unresolved anchor: KMAC type")
-	} else {
-		if f := w.method(kmacT, "ComputeHash"); f != nil {
-			k, data := P(f, 0), P(f, 1)
-			cl := k + ".ShakeHash.Clone()"
-			want := []string{
-				"Clone@" + k + ".ShakeHash()",
-				"Reset@" + cl + "()",
-				"Write@" + cl + "(" + k + ".initBlock)",
-				"Write@" + cl + "(" + data + ")",
-				"Write@" + cl + "(rightEncode((" + k + ".outputSize * 8)))",
-				"Read@" + cl + "(make([]byte," + k + ".outputSize))",
-			}
-			var got []string
-			for _, c := range methodCalls(f) {
-				got = append(got, c.name+"@"+c.recv+"("+strings.Join(c.args, ", ")+")")
-			}
-			w.check(strings.Join(got, ";") == strings.Join(want, ";"), "C13.R2", fnKey(f)+"/sequence", f.Pos(), "Clone→Reset→Write(initBlock)→Write(data)→Write(rightEncode(8·size))→Read, all on the clone",
-				"KMAC ComputeHash call sequence is "+strings.Join(got, " ; ")+" — expected "+strings.Join(want, " ; "))
-			for _, r := range returns(f) {
-				w.check(render(r.Results[0]) == "make([]byte,"+k+".outputSize)", "C13.R2", fnKey(f)+"/result", r.Pos(), "returns the buffer read from the clone", "ComputeHash returns "+render(r.Results[0]))
-			}
-		}
-		if f := w.method(kmacT, "SumHash"); f != nil {
-			k := P(f, 0)
-			cl := k + ".ShakeHash.Clone()"
-			want := []string{"Clone@" + k + ".ShakeHash()", "Write@" + cl + "(rightEncode((" + k + ".outputSize * 8)))", "Read@" + cl + "(make([]byte," + k + ".outputSize))"}
-			var got []string
-			for _, c := range methodCalls(f) {
-				got = append(got, c.name+"@"+c.recv+"("+strings.Join(c.args, ", ")+")")
-			}
-			w.check(strings.Join(got, ";") == strings.Join(want, ";"), "C13.R2", fnKey(f)+"/sequence", f.Pos(), "SumHash finalises a clone (writing can continue)", "KMAC SumHash call sequence is "+strings.Join(got, " ; "))
-		}
-		if f := w.method(kmacT, "Reset"); f != nil {
-			k := P(f, 0)
-			var got []string
-			for _, c := range methodCalls(f) {
-				got = append(got, c.name+"@"+c.recv+"("+strings.Join(c.args, ", ")+")")
-			}
-			want := []string{"Reset@" + k + ".ShakeHash()", "Write@" + k + "(" + k + ".initBlock)"}
-			alt := []string{"Reset@" + k + ".ShakeHash()", "Write@" + k + ".ShakeHash(" + k + ".initBlock)"}
-			g := strings.Join(got, ";")
-			w.check(g == strings.Join(want, ";") || g == strings.Join(alt, ";"), "C13.R2", fnKey(f)+"/sequence", f.Pos(), "Reset = cSHAKE reset + re-absorb the init block", "KMAC Reset sequence is "+g)
-		}
-		if f := w.method(kmacT, "Size"); f != nil {
-			for _, r := range returns(f) {
-				w.check(render(r.Results[0]) == P(f, 0)+".outputSize", "C13.R2", fnKey(f)+"/size", r.Pos(), "Size() is the output size", "Size() returns "+render(r.Results[0]))
-			}
-		}
-	}
+	w.ruleKmacSequences("C13.R2")
 	// sponge ComputeHash: Reset → write(data) → sum; SHA2: Reset → Write → Sum
 	var spongeT *types.Named
 	if p := w.ByPath[hashPath]; p != nil {
@@ -1304,7 +1247,41 @@ func ruleC14(w *World) {
 				pred := ph.Block().Preds[i]
 				last := pred.Instrs[len(pred.Instrs)-1]
 				fs := w.factsAt(last)
-				if s == fmt.Sprintf("%s.emptyMessage[:len(%s)]", c, buf) {
+				zg := zeroGlobalOf(e, buf)
+				if zg != nil {
+					// the zero message as a package-level array shared by all generators: long enough, and never written anywhere
+					w.check(hasFact(fs, fmt.Sprintf("len(%s) <= %d", buf, lenEmpty)), "C14.R3", fnKey(rd)+"/message:zero-array", x.Pos(), "zero array used only when it is long enough", "the zero message is sliced beyond its length", factStrings(fs)...)
+					written := ""
+					for _, f := range w.moduleFuncs() {
+						if isTestFile(w, f.Pos()) || f.Blocks == nil {
+							continue
+						}
+						instrsFlat(f, func(ins ssa.Instruction) {
+							if st, ok := ins.(*ssa.Store); ok && rootGlobalOf(st.Addr) == zg && f.Name() != "init" {
+								written = "stored to in " + fnKey(f)
+							}
+							if cc, ok := ins.(ssa.CallInstruction); ok {
+								for j, a := range cc.Common().Args {
+									if rootGlobalOf(a) != zg {
+										continue
+									}
+									if b, isB := cc.Common().Value.(*ssa.Builtin); isB && (b.Name() == "len" || b.Name() == "cap") {
+										continue
+									}
+									callee := cc.Common().StaticCallee()
+									if callee != nil && callee.Name() == "XORKeyStream" && j == 2 {
+										continue // source operand of the cipher: read only
+									}
+									if b, isB := cc.Common().Value.(*ssa.Builtin); isB && b.Name() == "copy" && j == 1 {
+										continue
+									}
+									written = fmt.Sprintf("handed to %s as argument %d in %s (%s)", render(cc.Common().Value), j, fnKey(f), w.pos(ins.Pos()))
+								}
+							}
+						})
+					}
+					w.check(written == "", "C14.R3", fnKey(rd)+"/message:zero-array-never-written", rd.Pos(), "the shared zero message array is never written", "the zero message array `"+zg.Name()+"` is "+written+": keystream bytes land in the message every generator encrypts, so later reads are not the RFC 8439 keystream")
+				} else if s == fmt.Sprintf("%s.emptyMessage[:len(%s)]", c, buf) {
 					w.check(hasFact(fs, fmt.Sprintf("len(%s) <= %d", buf, lenEmpty)), "C14.R3", fnKey(rd)+"/message:zero-array", x.Pos(), "zero array used only when it is long enough", "the zero message is sliced beyond its length", factStrings(fs)...)
 					// never written
 					written := false
@@ -1468,6 +1445,7 @@ func ruleC15(w *World) {
 			w.check(okRange, "C15.R2", fnKey(sm)+"/loop-range", us[0].Pos(), "i ranges over 0..m-1", "loop does not run i over exactly 0..m-1")
 			// swap(i, i + int(j))
 			sw := 0
+			var swCall *ssa.Call
 			instrs(sm, func(ins ssa.Instruction) {
 				if c, ok := ins.(*ssa.Call); ok && !c.Call.IsInvoke() && c.Call.StaticCallee() == nil {
 					if _, isB := c.Call.Value.(*ssa.Builtin); isB {
@@ -1478,6 +1456,7 @@ func ruleC15(w *World) {
 						j := render(us[0].(ssa.Value))
 						if a0 == idx && a1 == "("+idx+" + "+j+")" {
 							sw++
+							swCall = c
 						} else {
 							w.viol("C15.R2", fnKey(sm)+"/swap", c.Pos(), "swap is called with ("+a0+", "+a1+"), expected (i, i+j)")
 						}
@@ -1485,6 +1464,24 @@ func ruleC15(w *World) {
 				}
 			})
 			w.check(sw == 1, "C15.R2", fnKey(sm)+"/swap", sm.Pos(), "swap(i, i+j)", "no swap(i, i+j) call found")
+			// the swap is applied at every step (the callback is the only way the caller learns the draw: a step without a
+			// call is a step whose draw is lost for callers that fill positions from it)
+			if sw == 1 && swCall != nil && swCall.Parent() == us[0].Parent() {
+				ub, sb := us[0].Block(), swCall.Block()
+				skipped := false
+				if ub != sb {
+					if bo, ok := stripConv(us[0].Common().Args[1]).(*ssa.BinOp); ok {
+						if ph, ok := bo.Y.(*ssa.Phi); ok {
+							for _, s2 := range ub.Succs {
+								if s2 == ph.Block() || (s2 != sb && reachAvoid(s2, ph.Block(), sb)) {
+									skipped = true
+								}
+							}
+						}
+					}
+				}
+				w.check(!skipped, "C15.R2", fnKey(sm)+"/swap-every-step", swCall.Pos(), "every iteration that draws j calls swap(i, i+j)", "some iteration draws j and goes on to the next step without calling swap(i, i+j): the draw is lost for the caller")
+			}
 		}
 		w.ruleErrorFacts("C15.R3", sm, []string{m + " < 0", nn + " < " + m})
 	}
@@ -1664,4 +1661,121 @@ func (w *World) neverNarrowed(v ssa.Value, d int) bool {
 		return true
 	}
 	return true
+}
+
+// ruleKmacSequences (C13.R2 / C16.R5): every KMAC method leaves and uses a *keyed* state: ComputeHash works on a clone that
+// is reset and re-keyed with the init block, SumHash finalises a clone, Reset re-absorbs the init block.
+func (w *World) ruleKmacSequences(rule string) {
+	// R2: ordering in the KMAC methods
+	var kmacT *types.Named
+	for _, t := range w.implementors(hashPath, "Hasher", hashPath) {
+		for _, f := range structFields(t) {
+			if f.Name() == "initBlock" {
+				kmacT = t
+			}
+		}
+	}
+	if kmacT == nil {
+		w.undecided(rule, "anchor:kmac", token.NoPos, "unresolved anchor: KMAC type")
+	} else {
+		if f := w.method(kmacT, "ComputeHash"); f != nil {
+			k, data := P(f, 0), P(f, 1)
+			cl := k + ".ShakeHash.Clone()"
+			want := []string{
+				"Clone@" + k + ".ShakeHash()",
+				"Reset@" + cl + "()",
+				"Write@" + cl + "(" + k + ".initBlock)",
+				"Write@" + cl + "(" + data + ")",
+				"Write@" + cl + "(rightEncode((" + k + ".outputSize * 8)))",
+				"Read@" + cl + "(make([]byte," + k + ".outputSize))",
+			}
+			var got []string
+			for _, c := range methodCalls(f) {
+				got = append(got, c.name+"@"+c.recv+"("+strings.Join(c.args, ", ")+")")
+			}
+			w.check(strings.Join(got, ";") == strings.Join(want, ";"), rule, fnKey(f)+"/sequence", f.Pos(), "Clone→Reset→Write(initBlock)→Write(data)→Write(rightEncode(8·size))→Read, all on the clone",
+				"KMAC ComputeHash call sequence is "+strings.Join(got, " ; ")+" — expected "+strings.Join(want, " ; "))
+			for _, r := range returns(f) {
+				w.check(render(r.Results[0]) == "make([]byte,"+k+".outputSize)", rule, fnKey(f)+"/result", r.Pos(), "returns the buffer read from the clone", "ComputeHash returns "+render(r.Results[0]))
+			}
+		}
+		if f := w.method(kmacT, "SumHash"); f != nil {
+			k := P(f, 0)
+			cl := k + ".ShakeHash.Clone()"
+			want := []string{"Clone@" + k + ".ShakeHash()", "Write@" + cl + "(rightEncode((" + k + ".outputSize * 8)))", "Read@" + cl + "(make([]byte," + k + ".outputSize))"}
+			var got []string
+			for _, c := range methodCalls(f) {
+				got = append(got, c.name+"@"+c.recv+"("+strings.Join(c.args, ", ")+")")
+			}
+			w.check(strings.Join(got, ";") == strings.Join(want, ";"), rule, fnKey(f)+"/sequence", f.Pos(), "SumHash finalises a clone (writing can continue)", "KMAC SumHash call sequence is "+strings.Join(got, " ; "))
+		}
+		if f := w.method(kmacT, "Reset"); f != nil {
+			k := P(f, 0)
+			var got []string
+			for _, c := range methodCalls(f) {
+				got = append(got, c.name+"@"+c.recv+"("+strings.Join(c.args, ", ")+")")
+			}
+			want := []string{"Reset@" + k + ".ShakeHash()", "Write@" + k + "(" + k + ".initBlock)"}
+			alt := []string{"Reset@" + k + ".ShakeHash()", "Write@" + k + ".ShakeHash(" + k + ".initBlock)"}
+			g := strings.Join(got, ";")
+			w.check(g == strings.Join(want, ";") || g == strings.Join(alt, ";"), rule, fnKey(f)+"/sequence", f.Pos(), "Reset = cSHAKE reset + re-absorb the init block", "KMAC Reset sequence is "+g)
+		}
+		if f := w.method(kmacT, "Size"); f != nil {
+			for _, r := range returns(f) {
+				w.check(render(r.Results[0]) == P(f, 0)+".outputSize", rule, fnKey(f)+"/size", r.Pos(), "Size() is the output size", "Size() returns "+render(r.Results[0]))
+			}
+		}
+	}
+}
+
+// zeroGlobalOf: v is `G[:len(buf)]` for a package-level byte array G
+func zeroGlobalOf(v ssa.Value, buf string) *ssa.Global {
+	sl, ok := stripConv(v).(*ssa.Slice)
+	if !ok || sl.Low != nil || sl.High == nil || render(sl.High) != "len("+buf+")" {
+		return nil
+	}
+	g, _ := sl.X.(*ssa.Global)
+	if g == nil {
+		return nil
+	}
+	if _, isArr := deref(g.Type()).Underlying().(*types.Array); !isArr {
+		return nil
+	}
+	return g
+}
+
+// rootGlobalOf: the package-level variable an address / slice value is derived from, if any
+func rootGlobalOf(v ssa.Value) *ssa.Global { return rootGlobalOfS(v, map[ssa.Value]bool{}) }
+
+func rootGlobalOfS(v ssa.Value, seen map[ssa.Value]bool) *ssa.Global {
+	for d := 0; d < 12; d++ {
+		if v == nil || seen[v] {
+			return nil
+		}
+		seen[v] = true
+		switch x := v.(type) {
+		case *ssa.Global:
+			return x
+		case *ssa.Slice:
+			v = x.X
+		case *ssa.IndexAddr:
+			v = x.X
+		case *ssa.FieldAddr:
+			v = x.X
+		case *ssa.ChangeType:
+			v = x.X
+		case *ssa.Convert:
+			v = x.X
+		case *ssa.Phi:
+			for _, e := range x.Edges {
+				if g := rootGlobalOfS(e, seen); g != nil {
+					return g
+				}
+			}
+			return nil
+		default:
+			return nil
+		}
+	}
+	return nil
 }
